@@ -224,6 +224,8 @@ def run(ctx):
             # (a field that does not exist on the pinned tree: nothing is known about it — not evidence of anything)
             ctx.undecided("C07-state", "field/" + name, "Interpreter.%s is not classified (monotone cache / paired / configuration): "
                        "an error between its writes could leave the interpreter inconsistent" % name, None)
+    from . import libtables as _lt
+    _lt.rule_state_after_body_failure(ctx, "C07-state")
     # libraries cache: inserted only on the Continue edge of the instantiation
     gl = fb.find(ITP + "get_library")
     p = Prov(gl)
